@@ -263,7 +263,7 @@ type chunkResult struct {
 // WorkerMain is the body of a worker subprocess: it reads "space lo hi" lines
 // and answers each with one JSON line.
 func WorkerMain(checkID, tier string) {
-	debug.SetMaxStack(256 << 20)
+	debug.SetMaxStack(64 << 20)
 	ck := Lookup(checkID)
 	if ck == nil {
 		fmt.Fprintln(os.Stderr, "unknown check", checkID)
@@ -322,6 +322,7 @@ type Agg struct {
 	PerSpace   map[string]int64
 	Exhaustive bool
 	Crashes    int
+	abort      bool
 	Notes      []string
 	Start      time.Time
 	Plan       *Plan
@@ -453,7 +454,7 @@ func RunCheck(checkID, tier string) int {
 	take := func() (chunk, bool) {
 		mu.Lock()
 		defer mu.Unlock()
-		if next >= len(chunks) {
+		if next >= len(chunks) || a.abort {
 			return chunk{}, false
 		}
 		if time.Since(a.Start) > deadline {
@@ -646,13 +647,14 @@ func (a *Agg) workerLoop(w int, plan *Plan, take func() (chunk, bool), mu *sync.
 			mu.Lock()
 			a.Crashes++
 			a.AddViolation(v)
-			tooMany := a.Crashes > 300
+			tooMany := a.Crashes > 200
+			if tooMany && !a.abort {
+				a.abort = true
+				a.Notes = append(a.Notes, "more than 200 worker crashes; exploration stopped early")
+				a.Exhaustive = false
+			}
 			mu.Unlock()
 			if tooMany {
-				mu.Lock()
-				a.Notes = append(a.Notes, "more than 300 worker crashes; remaining cases of this chunk skipped")
-				a.Exhaustive = false
-				mu.Unlock()
 				break
 			}
 			ch.lo = idx + 1
